@@ -200,6 +200,33 @@ def replay(ctx, cases):
     return results
 
 
+def mechanism_of_death(ctx, case):
+    """Re-run one dying program under gdb and name the function that dominates the overflowing stack, so that
+    different unbounded recursions get different signatures.  Falls back to 'unknown' without gdb."""
+    import shutil
+    if not shutil.which("gdb"):
+        return "unknown"
+    path = os.path.join(ctx.work, "death_%d.ndjson" % case["input"]["id"])
+    with open(path, "w") as fo:
+        fo.write(json.dumps(case["input"]) + "\n")
+    try:
+        p = subprocess.run(["gdb", "-batch", "-ex", "run", "-ex", "bt 400", "--args", vlib.bin_path("vh_anaq"), "crash",
+                            path, str(CPU_BUDGET_S)], stdout=subprocess.PIPE, stderr=subprocess.STDOUT, text=True,
+                           errors="replace", timeout=300)
+    except subprocess.TimeoutExpired:
+        return "unknown"
+    counts = {}
+    for m in re.finditer(r"^#\d+\s+0x[0-9a-f]+ in (emmylua_[a-z_]+(?:::[A-Za-z0-9_<>{}]+)+?)::h[0-9a-f]{16}", p.stdout, re.M):
+        fn = m.group(1).split("::")
+        name = "::".join(fn[-2:])
+        counts[name] = counts.get(name, 0) + 1
+    if not counts:
+        return "unknown"
+    kind = "stack-overflow" if "overflowed its stack" in p.stdout or "SIGSEGV" in p.stdout else "abort"
+    top = sorted(counts.items(), key=lambda kv: (-kv[1], kv[0]))[0][0]
+    return "%s/%s" % (kind, top)
+
+
 def run(ctx):
     res = vlib.tlc("AnnoGen", "AnnoGen_mc", workers=ctx.pick(4, 8), timeout=1200)
     ctx.add_tlc(res)
@@ -247,7 +274,7 @@ def run(ctx):
         elif "budget_exceeded" in r:
             sig = "C12/cpu-budget-exceeded"
         else:
-            sig = "C12/process-died/rc=%s" % r.get("died")
+            sig = "C12/process-died/%s" % mechanism_of_death(ctx, c)
         seen.setdefault(sig, []).append({"level": c["conf"]["level"], "strict": c["conf"]["strict"],
                                          "files": c["texts"], "emmyrc": c["input"]["emmyrc"], "observed": r,
                                          "features": f})
